@@ -425,10 +425,13 @@ func PrintFile(f *File) string {
 		b.WriteString("}")
 		if t.Header || t.BothDecls {
 			for _, pd := range t.Params {
+				// (the declared type is not interpreted; its spelling varies with the name)
+				types := []string{"?", "any", "string", "list<string>", "map<string, int>", "[a: int, b: string]", "bool|null", "?  "}
+				ty := types[(len(pd.Name)*7+int(pd.Name[0]))%len(types)]
 				if pd.Optional {
-					b.WriteString("{@param? " + pd.Name + ": ?}")
+					b.WriteString("{@param? " + pd.Name + ": " + ty + "}")
 				} else {
-					b.WriteString("{@param " + pd.Name + ": ?}")
+					b.WriteString("{@param " + pd.Name + ":" + ty + " }")
 				}
 			}
 		}
